@@ -10,11 +10,12 @@ fn profile(thorough: bool) -> Profile {
         rekey: 10,
         prune: 5,
         disable: 5,
-        del_attr: 3,
+        del_attr: 5,
         update: 8,
         keygen: 9,
         refresh: 8,
         encaps: 12,
+        encaps_wide: 6,
         encaps_for: 8,
         recaps: 18,
         check: 3,
